@@ -18,7 +18,7 @@ RULE = (
     "potentials; non-trivial = mesh built (not refused) with >= 20 sites and every identity "
     "evaluated; distinct = distinct mesh spec"
 )
-REQUIRED_COUNTERS = ["lap_eq_div_grad", "div_sums_to_zero", "boundary_flux_integral", "symmetric_nsd", "nullspace_constants", "covariant_hermitian", "gradient_exact_linear", "ref_entrywise", "live_covariant_hermitian", "smoothed_mesh_checks"]
+REQUIRED_COUNTERS = ["lap_eq_div_grad", "div_sums_to_zero", "boundary_flux_integral", "symmetric_nsd", "nullspace_constants", "covariant_hermitian", "gradient_exact_linear", "ref_entrywise", "live_covariant_hermitian", "smoothed_mesh_checks", "container_checks", "mesh_unchanged_checks"]
 CASE_TIMEOUT = {"quick": 600, "thorough": 3600}
 ASSUMPTIONS = [
     "numpy/scipy dense eigensolvers are correct",
@@ -55,6 +55,13 @@ def run_case(spec):
     em = mesh.edge_mesh
     n, m = len(mesh.sites), len(em.edges)
     a = mesh.areas
+    # the builders must not modify the mesh they are given (checked at the end)
+    snapshot = {k: np.array(v, copy=True) for k, v in (("sites", mesh.sites), ("areas", mesh.areas), ("edges", em.edges), ("edge_lengths", em.edge_lengths),
+                                                       ("dual_edge_lengths", em.dual_edge_lengths), ("directions", em.directions), ("centers", em.centers))}
+    if spec["seed"] % 2:
+        # builder call order is part of the workload: Laplacian first for odd seeds
+        ops.build_laplacian(mesh)
+        ops.build_laplacian(mesh, link_exponents=rng.normal(size=(m, 2)))
     D = ops.build_divergence(mesh)
     G = ops.build_gradient(mesh)
     L, _ = ops.build_laplacian(mesh)
@@ -191,6 +198,49 @@ def run_case(spec):
         if "exactly singular" not in str(exc):
             raise
         C["live_operator_refused_singular"] = 1
+
+    # 9b. the operator container, for every sparse-solver variant that can be constructed here, and with
+    # terminal-like fixed sites whose pinning is switched off (fix_psi=False): same identities
+    bsel = np.sort(rng.choice(mesh.boundary_indices, size=max(2, len(mesh.boundary_indices) // 5), replace=False)).astype(np.int64)
+    for solver_kind in (SparseSolver.SUPERLU, SparseSolver.PARDISO):
+        for fixed, fix_psi in ((None, True), (bsel, False), (bsel, True)):
+            try:
+                mo = MeshOperators(mesh, solver_kind, fixed_sites=fixed, fix_psi=fix_psi)
+                mo.build_operators()
+            except RuntimeError as exc:
+                if "exactly singular" in str(exc):
+                    continue
+                raise
+            C["container_checks"] = C.get("container_checks", 0) + 1
+            Lmu = sp.csr_matrix(mo.mu_laplacian)
+            for name, got, want in (("mu_laplacian", Lmu, Lref), ("divergence", mo.divergence, Dref), ("mu_gradient", mo.mu_gradient, Gref), ("mu_boundary_laplacian", mo.mu_boundary_laplacian, Bref)):
+                dd = fv.max_abs_diff(got, want)
+                if note("ref_entrywise", dd, 1e-12 * abs(want).max()):
+                    viol("container_operator_ne_reference", {"operator": name, "sparse_solver": solver_kind.name, "max_abs_diff": dd})
+            A = rng.normal(size=(m, 2))
+            mo.set_link_exponents(A)
+            mo.set_link_exponents(0.5 * A)
+            Lp = sp.csr_matrix(mo.psi_laplacian)
+            fx = fixed if (fix_psi and fixed is not None) else None
+            Lp_ref = fv.laplacian_fast(n, em.edges, em.edge_lengths, em.dual_edge_lengths, a, em.directions, 0.5 * A, fx)
+            if note("ref_entrywise", fv.max_abs_diff(Lp, Lp_ref), 1e-11 * abs(Lp_ref).max()):
+                viol("container_psi_laplacian_ne_reference", {"sparse_solver": solver_kind.name, "fixed_sites": fixed is not None, "fix_psi": fix_psi})
+            if fx is None:
+                ML = (sp.diags(a) @ Lp).toarray()
+                hh = float(np.abs(ML - ML.conj().T).max())
+                if note("live_covariant_hermitian", hh, 1e-12 * float(np.abs(ML).max())):
+                    viol("live_covariant_laplacian_not_hermitian", {"asym": hh, "fixed_sites_unpinned": fixed is not None})
+
+    # 9c. no builder modified the mesh
+    now = {"sites": mesh.sites, "areas": mesh.areas, "edges": em.edges, "edge_lengths": em.edge_lengths, "dual_edge_lengths": em.dual_edge_lengths,
+           "directions": em.directions, "centers": em.centers}
+    C["mesh_unchanged_checks"] = 1
+    for k_, v_ in snapshot.items():
+        if not np.array_equal(v_, np.asarray(now[k_])):
+            viol("builder_mutated_mesh", {"array": k_, "max_change": float(np.abs(np.asarray(now[k_], dtype=float) - v_).max())})
+    d_ = fv.max_abs_diff(sp.csr_matrix(ops.build_laplacian(mesh)[0]), ops.build_divergence(mesh) @ ops.build_gradient(mesh))
+    if note("lap_eq_div_grad", d_, 1e-10 * scaleL):
+        viol("lap_ne_div_grad", {"when": "rebuilt at the end", "max_abs_diff": d_})
 
     # 10. smoothing returns new meshes that obey the identities and leaves the source mesh untouched
     if mesh.voronoi_polygons is not None and spec["mesh"]["kind"] != "explicit":
